@@ -50,7 +50,7 @@ pub fn load_known() -> (Vec<Known>, Vec<String>) {
 
 pub fn child_main(prop_id: &str, tier: Tier, seed: u64, shard: usize, nshards: usize) {
     let prop = lookup(prop_id).expect("unknown property");
-    let cases = prop.cases(tier);
+    let cases = std::env::var("QSIM_CASES").ok().and_then(|s| s.parse().ok()).unwrap_or_else(|| prop.cases(tier));
     let known: Vec<String> = load_known().0.into_iter().filter(|k| k.prop == prop_id).map(|k| k.key).collect();
     let out = std::io::stdout();
     let mut case = shard;
@@ -338,4 +338,64 @@ pub fn replay_main(path: &str) -> i32 {
         println!("REPLAY MISMATCH: reproduced={} same_hash={} (expected key {}, hash {:016x}, got {:016x})", o.reproduced, o.same_hash, file.key, file.log_hash, o.result.log_hash);
         2
     }
+}
+
+
+/// Determinism self-test: every case of every property is executed twice, in different child
+/// processes under different shardings; the per-run event-log hashes must be identical.
+pub fn selftest_determinism(tier: Tier, seed: u64) -> i32 {
+    let exe = std::env::current_exe().expect("current_exe");
+    let tier_s = if tier == Tier::Quick { "quick" } else { "thorough" };
+    let props = ["C03", "C04", "C05", "C06", "C10", "C11", "C13", "C14", "C15"];
+    let mut bad = 0u64;
+    let mut total = 0u64;
+    for prop in props {
+        let ncases: usize = if tier == Tier::Quick { 48 } else { 480 };
+        let mut maps: Vec<BTreeMap<u64, Vec<u64>>> = Vec::new();
+        for shards in [16usize, 5usize] {
+            let mut handles = Vec::new();
+            for shard in 0..shards {
+                let c = Command::new(&exe)
+                    .args(["child", prop, tier_s, &seed.to_string(), &shard.to_string(), &shards.to_string()])
+                    .env("QSIM_CASES", ncases.to_string())
+                    .stdout(Stdio::piped())
+                    .stderr(Stdio::null())
+                    .spawn()
+                    .expect("spawn child");
+                handles.push(c);
+            }
+            let mut m: BTreeMap<u64, Vec<u64>> = BTreeMap::new();
+            for mut c in handles {
+                let out = c.stdout.take().unwrap();
+                for line in BufReader::new(out).lines().map_while(Result::ok) {
+                    if let Ok(r) = serde_json::from_str::<CaseReport>(&line) {
+                        m.insert(r.case, r.run_hashes);
+                    }
+                }
+                let _ = c.wait();
+            }
+            maps.push(m);
+        }
+        let (a, b) = (&maps[0], &maps[1]);
+        let mut prop_bad = 0;
+        for (case, ha) in a {
+            total += ha.len() as u64;
+            match b.get(case) {
+                Some(hb) if hb == ha => {}
+                other => {
+                    prop_bad += 1;
+                    if prop_bad <= 3 {
+                        eprintln!("NONDETERMINISM: {prop} case {case}: {} vs {:?} runs", ha.len(), other.map(|x| x.len()));
+                    }
+                }
+            }
+        }
+        if a.len() != b.len() {
+            prop_bad += 1;
+        }
+        println!("{prop}: {} cases, {} runs hashed twice (16 vs 5 processes): {} mismatching case(s)", a.len(), a.values().map(|v| v.len()).sum::<usize>(), prop_bad);
+        bad += prop_bad;
+    }
+    println!("determinism self-test: {total} runs compared, {bad} mismatching case(s)");
+    if bad > 0 { 2 } else { 0 }
 }
